@@ -19,7 +19,7 @@ from ..effects import SelfEffects, Summary
 from ..alias import FnAlias
 from ..cfg import CFG, path_of
 from ..astutil import unparse, call_name, walk_no_nested, func_params, is_abstract, same_expr
-from .common import (concrete_experimental_samplers, legacy_samplers, EXP_SAMPLER, LEG_SAMPLER, site,
+from .common import (concrete_experimental_samplers, legacy_samplers, EXP_SAMPLER, LEG_SAMPLER, site, canon_fn, canon_keep, guarded,
                      top_level_index)
 
 NONDET_CALL_SUFFIXES = ("estimate_spectral_norm", "rvs", "sample")
@@ -265,9 +265,21 @@ def _main_loop(fn) -> ast.For:
     return loops[0]
 
 
+def _expand_in(fn, call, e):
+    """`e` (an argument of `call` inside fn) with temporaries replaced by their definitions"""
+    from ..flow import Expander
+    ex = Expander(fn)
+    n = ex.cfg.stmt_node_containing(call)
+    return ex.expand(e, n) if n is not None else e
+
+
 def _r3_experimental(chk, repo, base, recorded):
+    from .common import canon_keep, canon_fn, guarded
     for m in ("sample", "warmup"):
-        fn = repo.method(base, m)[1]
+        fn_src = repo.method(base, m)[1]
+        # private helpers that merely group statements of the loop body are inlined; the building blocks the rule names are kept
+        fn = canon_keep(repo, base, fn_src, keep={"step", "tune", "_call_callback", "_print_progress", "_ensure_initialized", "_pre_warmup", "_pre_sample",
+                                                  "_create_Sample_object", "save_checkpoint", "_dump_samples", "_compute_sampler_info"})
         loop = _main_loop(fn)
         body = loop.body
         inst = f"{base.qual}.{m}"
@@ -301,7 +313,7 @@ def _r3_experimental(chk, repo, base, recorded):
                 problems.append(f"recorded value {unparse(rec_arg)} is not the state attribute")
             if len(cb.args) != 2 or not same_expr(cb.args[0], rec_arg):
                 problems.append(f"callback is not invoked with the recorded state: {unparse(cb)}")
-            elif unparse(cb.args[1]).replace(" ", "") != "len(self._samples)-1":
+            elif unparse(_expand_in(fn, cb, cb.args[1])).replace(" ", "") != "len(self._samples)-1":
                 lv = loop.target.id if isinstance(loop.target, ast.Name) else None
                 if isinstance(cb.args[1], ast.Name) and cb.args[1].id == lv:
                     problems.append(f"callback index `{lv}` counts the iterations of this call, not the position in the chain "
@@ -422,8 +434,10 @@ def _r4(chk, repo, ci):
 def _r5(chk, repo, base, samplers):
     se = SelfEffects(repo, base)
     for getter, setter, keyattr in (("get_state", "set_state", "_STATE_KEYS"), ("get_history", "set_history", "_HISTORY_KEYS")):
-        gfn = repo.method(base, getter)[1]
-        sfn = repo.method(base, setter)[1]
+        gfn_src = repo.method(base, getter)[1]
+        sfn_src = repo.method(base, setter)[1]
+        gfn = canon_fn(repo, base, gfn_src, 3)       # a loop that fills the dict is the same comprehension
+        sfn = canon_fn(repo, base, sfn_src, 1)
         # getter: a dict comprehension over self.<keyattr> reading getattr(self, key)
         ok_g = False
         for n in ast.walk(gfn):
@@ -433,8 +447,8 @@ def _r5(chk, repo, base, samplers):
                 if isinstance(v, ast.Call) and call_name(v) == "getattr" and path_of(v.args[0]) == "self" \
                         and path_of(v.args[1]) == path_of(n.generators[0].target) == path_of(n.key):
                     ok_g = True
-        chk.add("C14-R5", f"{base.qual}.{getter}", ok_g, site(repo, gfn), f"reads every key of {keyattr} with getattr",
-                f"{getter} does not read exactly the keys of {keyattr} (unfiltered comprehension over self.{keyattr} expected)", gfn)
+        chk.add("C14-R5", f"{base.qual}.{getter}", ok_g, site(repo, gfn_src), f"reads every key of {keyattr} with getattr",
+                f"{getter} does not read exactly the keys of {keyattr} (unfiltered comprehension over self.{keyattr} expected)", gfn_src)
         # setter: setattr only under `key in self.<keyattr>`, else raise; type check precedes
         g = CFG(sfn)
         sets = [n for n in g.nodes if n.ast is not None and n.kind == "stmt" and any(
@@ -443,13 +457,17 @@ def _r5(chk, repo, base, samplers):
         why = ""
         if ok_s:
             guards = g.guards_of(sets[0])
-            memb = [(t, lab) for t, lab in guards if unparse(t.ast).replace(" ", "") in (f"keyinself.{keyattr}",) and lab == "T"]
+            sa_call = [c for c in ast.walk(sets[0].ast) if isinstance(c, ast.Call) and call_name(c) == "setattr"][0]
+            kv = path_of(sa_call.args[1]) or "key"
+            memb = [(t, lab) for t, lab in guards if (unparse(t.ast).replace(" ", "") == f"{kv}inself.{keyattr}" and lab == "T")
+                    or (unparse(t.ast).replace(" ", "") == f"{kv}notinself.{keyattr}" and lab == "F")]
             if not memb:
                 ok_s, why = False, f"setattr is not guarded by `key in self.{keyattr}`"
             else:
-                t = memb[0][0]
-                # the false edge must lead to a raise, not to the next iteration
-                falses = [m for m, lab in g.succ[t.id] if lab == "F"]
+                t, lab_in = memb[0]
+                # the other edge must lead to a raise, not to the next iteration
+                other = "F" if lab_in == "T" else "T"
+                falses = [m for m, lab in g.succ[t.id] if lab == other]
                 if not falses or not all(g.nodes[m].kind == "raisestmt" for m in falses):
                     ok_s, why = False, "an unknown key is not refused with an error"
         else:
@@ -458,7 +476,7 @@ def _r5(chk, repo, base, samplers):
         overr = [c.qual for c in repo.subclasses(base) if getter in c.methods or setter in c.methods]
         if overr:
             ok_s, why = False, f"{getter}/{setter} overridden in {overr} (not analysed)"
-        chk.add("C14-R5", f"{base.qual}.{setter}", ok_s, site(repo, sfn), f"writes only keys of {keyattr}, refuses others", why, sfn)
+        chk.add("C14-R5", f"{base.qual}.{setter}", ok_s, site(repo, sfn_src), f"writes only keys of {keyattr}, refuses others", why, sfn_src)
     # checkpoint uses the state pair; reinitialize resets both sets
     sc = repo.method(base, "save_checkpoint")[1]
     lc = repo.method(base, "load_checkpoint")[1]
